@@ -23,6 +23,8 @@ import (
 	"sort"
 	"strings"
 	"sync"
+	"sync/atomic"
+	"time"
 
 	logger "github.com/multiversx/mx-chain-logger-go"
 )
@@ -70,7 +72,19 @@ type report struct {
 	Samples         []string       `json:"samples"`
 	Violations      []Violation    `json:"violations"`
 	Crashed         []string       `json:"crashed"`
+	Hung            []string       `json:"hung"`
+	HungHistories   []int          `json:"hung_histories"`
 }
+
+// LongOps is implemented by components whose single operations legitimately take long (whole stress runs, exhaustive scans)
+type LongOps interface {
+	OpTimeout() time.Duration
+}
+
+// opTimeout: an operation of the implementation that does not return within this time is reported as a hang (with the history
+// so far as the failing input); the rest of the run is abandoned because the stuck goroutine cannot be stopped.
+var opTimeout = 120 * time.Second
+var hangSeen atomic.Bool
 
 func main() {
 	_ = logger.SetLogLevel("*:NONE")
@@ -159,6 +173,8 @@ type histResult struct {
 	viols []Violation
 	tags  map[string]int
 	crash string
+	hang  string
+	done  bool
 }
 
 func runHistory(comp Component, idx int, h []string) (res histResult) {
@@ -178,7 +194,11 @@ func runHistory(comp Component, idx int, h []string) (res histResult) {
 		}
 	}()
 	r := comp.NewRunner(h[0])
-	defer r.Close()
+	defer func() {
+		if res.hang == "" { // Close of a stuck component may block for ever
+			r.Close()
+		}
+	}()
 	res.out = append(res.out, "ok")
 	res.ops = append(res.ops, h[0])
 	rw, _ := r.(Rewriter)
@@ -188,7 +208,15 @@ func runHistory(comp Component, idx int, h []string) (res histResult) {
 			line = rw.Rewrite(line)
 		}
 		res.ops = append(res.ops, line)
-		o := r.Exec(line)
+		o, hung := execWithWatchdog(r, line)
+		if hung {
+			res.hang = fmt.Sprintf("history %d line %d: operation `%s` did not return within %s (endless loop or deadlock in the implementation)", idx, i, line, opTimeout)
+			hangSeen.Store(true)
+			res.out = append(res.out, "HANG")
+			res.ops = res.ops[:len(res.out)]
+			res.done = true
+			return
+		}
 		if pr, ok := r.(PostRewriter); ok {
 			if l := pr.LastLine(); l != "" {
 				res.ops[len(res.ops)-1] = l
@@ -204,11 +232,48 @@ func runHistory(comp Component, idx int, h []string) (res histResult) {
 	for k, v := range r.Tags() {
 		res.tags[k] += v
 	}
+	res.done = true
 	return
+}
+
+func execWithWatchdog(r Runner, line string) (string, bool) {
+	type outcome struct {
+		o string
+		p interface{}
+	}
+	ch := make(chan outcome, 1)
+	go func() {
+		defer func() {
+			if p := recover(); p != nil {
+				ch <- outcome{p: p}
+			}
+		}()
+		ch <- outcome{o: r.Exec(line)}
+	}()
+	t := time.NewTimer(opTimeout)
+	defer t.Stop()
+	select {
+	case oc := <-ch:
+		if oc.p != nil {
+			panic(oc.p)
+		}
+		return oc.o, false
+	case <-t.C:
+		return "", true
+	}
 }
 
 func runAll(name string, comp Component, hs [][]string, outDir string) {
 	results := make([]histResult, len(hs))
+	if lo, ok := comp.(LongOps); ok {
+		opTimeout = lo.OpTimeout()
+	}
+	if v := os.Getenv("SVH_OP_TIMEOUT_S"); v != "" {
+		var n int
+		if _, err := fmt.Sscan(v, &n); err == nil && n > 0 {
+			opTimeout = time.Duration(n) * time.Second
+		}
+	}
 	workers := 1
 	if comp.Parallel() {
 		workers = runtime.NumCPU()
@@ -220,6 +285,9 @@ func runAll(name string, comp Component, hs [][]string, outDir string) {
 		go func() {
 			defer wg.Done()
 			for i := range ch {
+				if hangSeen.Load() {
+					continue
+				}
 				results[i] = runHistory(comp, i, hs[i])
 			}
 		}()
@@ -230,7 +298,22 @@ func runAll(name string, comp Component, hs [][]string, outDir string) {
 	close(ch)
 	wg.Wait()
 
-	rep := report{Component: name, OpKinds: map[string]int{}, Tags: map[string]int{}, Violations: []Violation{}, Crashed: []string{}, Samples: []string{}}
+	rep := report{Component: name, OpKinds: map[string]int{}, Tags: map[string]int{}, Violations: []Violation{}, Crashed: []string{}, Samples: []string{}, Hung: []string{}, HungHistories: []int{}}
+	if hangSeen.Load() {
+		// keep only the histories that were executed (completely, or up to the operation that hangs); renumber
+		var keptH [][]string
+		var keptR []histResult
+		for i := range hs {
+			if results[i].done {
+				for k := range results[i].viols {
+					results[i].viols[k].History = len(keptH)
+				}
+				keptH = append(keptH, hs[i])
+				keptR = append(keptR, results[i])
+			}
+		}
+		hs, results = keptH, keptR
+	}
 	f, err := os.Create(filepath.Join(outDir, "impl.out"))
 	must(err)
 	w := bufio.NewWriterSize(f, 1<<20)
@@ -274,6 +357,10 @@ func runAll(name string, comp Component, hs [][]string, outDir string) {
 		if results[i].crash != "" {
 			rep.Crashed = append(rep.Crashed, results[i].crash)
 		}
+		if results[i].hang != "" {
+			rep.Hung = append(rep.Hung, results[i].hang)
+			rep.HungHistories = append(rep.HungHistories, i)
+		}
 	}
 	must(w.Flush())
 	must(f.Close())
@@ -287,6 +374,9 @@ func runAll(name string, comp Component, hs [][]string, outDir string) {
 			n := len(hs[i])
 			if n > 12 {
 				n = 12
+			}
+			if n > len(results[i].out) {
+				n = len(results[i].out)
 			}
 			var sb strings.Builder
 			for j := 0; j < n; j++ {
@@ -306,6 +396,9 @@ func runAll(name string, comp Component, hs [][]string, outDir string) {
 	}
 	b, _ := json.MarshalIndent(rep, "", " ")
 	must(os.WriteFile(filepath.Join(outDir, "report.json"), b, 0o644))
+	if hangSeen.Load() {
+		os.Exit(0) // stuck goroutines cannot be joined
+	}
 }
 
 // ---------- helpers shared by components ----------
